@@ -219,7 +219,11 @@ func streamRecord(out io.Writer, args []string) error {
 		var acc [nacc]stats.StreamStats
 		// value profile
 		var off, spread int64
-		switch rng.Intn(5) {
+		switch rng.Intn(7) {
+		case 5:
+			off, spread = 1<<30, 15 // a common offset 2^26 times the spread (values stay within TLC integers)
+		case 6:
+			off, spread = -1000000000, 2
 		case 0:
 			off, spread = 0, 5
 		case 1:
@@ -240,6 +244,12 @@ func streamRecord(out io.Writer, args []string) error {
 				a, b := rng.Intn(nacc), rng.Intn(nacc)
 				if a == b {
 					b = (a + 1) % nacc
+				}
+				if acc[a].Count+acc[b].Count > 1<<30 {
+					// repeated merging doubles the counts; keep them inside the trace spec's 32-bit integers
+					acc[a] = stats.StreamStats{}
+					enc.Encode(streamEvent{Op: "Clear", A: a, Seed: *seed, Idx: idx, Tot: sbig{0, []int{}}, Mn: sbig{0, []int{}}, Mx: sbig{0, []int{}},
+						Mean: mkfdy(math.NaN()), Var: mkfdy(math.NaN()), Sd: mkfdy(math.NaN()), Rms: mkfdy(math.NaN())})
 				}
 				before := acc[b]
 				acc[a].Combine(&acc[b])
